@@ -287,12 +287,13 @@ def opGEN (args res : List String) : Findings := Id.run do
       let (g', f) := g.removeMove m
       g := g'
       if out != (if f then "1" else "0") then fs := fs.push (fM "gen" s!"step {i} remove_move: impl={out}")
-      if started then inScope := false      -- removals are in scope only beforehand
+      -- removals are in scope beforehand: before any move is yielded under the current mask, or once it is exhausted
+      if started ∧ !it.exhausted then inScope := false
       it := it.removeMove m
     | "Y" =>
       let some mask := bb? arg | return fs.push ⟨'E', "parse", s!"mask {arg}"⟩
       g := g.removeMask mask
-      if started then inScope := false
+      if started ∧ !it.exhausted then inScope := false
       it := it.removeMask mask
     | _ => fs := fs.push ⟨'E', "parse", s!"op {op}"⟩
   return fs
